@@ -17,6 +17,7 @@ const (
 	uNBSP  // U+00A0, Unicode whitespace (Zs)
 	uDash  // U+2014 EM DASH, Unicode punctuation (Pd)
 	uEAcute // U+00E9, a non-ASCII letter
+	uLatin1 // any of U+0080..U+00FF (symbolic): control, whitespace, punctuation, symbol or letter
 	uClasses
 )
 
@@ -25,8 +26,28 @@ type c11Unit struct {
 	bytes []byte
 }
 
-func c11IsWS(c int) bool    { return c == uSpace || c == uNBSP }
-func c11IsPunct(c int) bool { return c == uStar || c == uUnder || c == uPunct || c == uDash }
+// c11IsWS / c11IsPunct: Unicode whitespace (Zs, tab, line endings, form feed) and
+// punctuation (ASCII punctuation or general category P*) in the sense of CommonMark
+// 0.30 section 2.1, per unit. For a uLatin1 unit the decision is made on its
+// (symbolic) bytes: in U+0080..U+00FF only U+00A0 is Zs (U+0085 is Cc), and the P* characters are
+// U+00A1 U+00A7 U+00AB U+00B6 U+00B7 U+00BB U+00BF (the rest are symbols, letters,
+// digits or format characters).
+func c11IsWS(u c11Unit) bool {
+	if u.class == uLatin1 {
+		return vand(u.bytes[0] == 0xC2, u.bytes[1] == 0xA0)
+	}
+	return u.class == uSpace || u.class == uNBSP
+}
+
+func c11IsPunct(u c11Unit) bool {
+	if u.class == uLatin1 {
+		b := u.bytes[1]
+		p := vor(b == 0xA1, vor(b == 0xA7, vor(b == 0xAB, vor(b == 0xB6, vor(b == 0xB7, vor(b == 0xBB, b == 0xBF))))))
+		return vand(u.bytes[0] == 0xC2, p)
+	}
+	c := u.class
+	return c == uStar || c == uUnder || c == uPunct || c == uDash
+}
 
 type c11Tok struct {
 	text     []byte
@@ -51,10 +72,10 @@ func c11Ref(units []c11Unit) []byte {
 			// beginning and end of the line count as Unicode whitespace
 			prevWS, prevP, nextWS, nextP := true, false, true, false
 			if i > 0 {
-				prevWS, prevP = c11IsWS(units[i-1].class), c11IsPunct(units[i-1].class)
+				prevWS, prevP = c11IsWS(units[i-1]), c11IsPunct(units[i-1])
 			}
 			if j < len(units) {
-				nextWS, nextP = c11IsWS(units[j].class), c11IsPunct(units[j].class)
+				nextWS, nextP = c11IsWS(units[j]), c11IsPunct(units[j])
 			}
 			lf := !nextWS && (!nextP || prevWS || prevP)
 			rf := !prevWS && (!prevP || nextWS || nextP)
@@ -175,12 +196,22 @@ func c11Ref(units []c11Unit) []byte {
 
 const c11PunctSet = "#$%()+,-./:;=?@^{|}~"
 
-// H_C11(n, nclasses): n units over the first nclasses classes (5 = ASCII only, 8 = all).
+// alphabet 20 of H_C11: delimiters, letters, spaces and an arbitrary character of the
+// Latin-1 supplement
+var c11Alpha20 = []int{uStar, uUnder, uWord, uSpace, uLatin1}
+
+// H_C11(n, nclasses): n units over the first nclasses classes (5 = ASCII only, 8 = with
+// three fixed non-ASCII characters); nclasses 20 selects c11Alpha20.
 func H_C11(n, nclasses int) {
 	units := make([]c11Unit, n)
 	var s []byte
 	for i := range units {
-		c := vconcrete(nondetInt(0, nclasses-1))
+		var c int
+		if nclasses == 20 {
+			c = c11Alpha20[vconcrete(nondetInt(0, len(c11Alpha20)-1))]
+		} else {
+			c = vconcrete(nondetInt(0, nclasses-1))
+		}
 		u := c11Unit{class: c}
 		switch c {
 		case uStar:
@@ -201,6 +232,10 @@ func H_C11(n, nclasses int) {
 			u.bytes = []byte{0xE2, 0x80, 0x94}
 		case uEAcute:
 			u.bytes = []byte{0xC3, 0xA9}
+		case uLatin1:
+			b0, b1 := nondetByte(), nondetByte()
+			assume(vor(vand(b0 == 0xC2, vand(b1 >= 0x80, b1 <= 0xBF)), vand(b0 == 0xC3, vand(b1 >= 0x80, b1 <= 0xBF))))
+			u.bytes = []byte{b0, b1}
 		}
 		units[i] = u
 		s = append(s, u.bytes...)
